@@ -45,8 +45,14 @@ func ReadIntoGraph(ctx context.Context, g storage.Graph, r io.Reader, b literal.
 		if err != nil {
 			return cnt, err
 		}
+		if err := g.AddTriples(ctx, []*triple.Triple{t}); err != nil {
+			return cnt, err
+		}
 		cnt++
-		g.AddTriples(ctx, []*triple.Triple{t})
+	}
+	if err := scanner.Err(); err != nil {
+		// The reader failed, or a line does not fit in the scanner's buffer.
+		return cnt, err
 	}
 	return cnt, nil
 }
